@@ -176,12 +176,43 @@ t = Tree(); layer(t, "b0", "", IMP, EXP); t.dir(bp("b0") + "/var/cache/binpkgs")
 t.link(VB + "/export/packages/b0", bp("b0") + "/var/cache/binpkgs")
 cases.append(case("export-ok", "export link in place", t, host(), [step("probe"), step("mount", "b0"), step("probe")]))
 
-# 8. recorded finding mount-source-behind-nonroot-mount: base path is a btrfs subvolume (root /sub)
+# 8. former finding mount-source-behind-nonroot-mount (fix 23c682d): base path is a btrfs subvolume (root /sub)
 t = Tree(); layer(t, "b0", "", ["import proc /proc /proc", "import rbind /VB/hostsrc /mnt/host"])
-cases.append(case("basepath-subvolume", "base path behind a mount whose root is not /: layercake's own rbind of /VB/hostsrc is reported as wrong source (recorded finding)",
+cases.append(case("basepath-subvolume", "base path behind a mount whose root is not /: layercake's own rbind of /VB/hostsrc was reported as wrong source (fixed by 23c682d)",
                   t, host(base_root="/sub"), [step("mount", "b0"), step("probe")]))
 
 with open(os.path.join(out_dir, "states.jsonl"), "w") as fh:
     for c in cases:
         fh.write(json.dumps(c, sort_keys=True) + "\n")
 print("wrote", len(cases), "cases")
+
+# 9. the regions found by the C08 proofs (Props/C08.lean section 9) and their controls
+sus = []
+t = Tree(); layer(t, "b0", "", IMP, ["export symlink /.cache $$file_export"]); t.dir(bp("b0") + "/.cache")
+sus.append(case("corpus-export-dot", "export source .cache inside the build directory: IsDescendant took it for a path outside, layer in error (fixed by eeedaf2)",
+                t, host([m_proc(20, "b0"), m_dev(21, "b0")]), [step("probe")]))
+t = Tree(); layer(t, "b0", "", IMP, ["export symlink /cache $$file_export"]); t.dir(bp("b0") + "/cache")
+sus.append(case("corpus-export-nodot", "control: export source cache inside the build directory", t,
+                host([m_proc(20, "b0"), m_dev(21, "b0")]), [step("probe")]))
+t = Tree(); layer(t, "b0", "", ["import proc /proc /proc", "import rbind /VB/hostsrc /mnt/host"])
+sus.append(case("corpus-bind-source-on-overlay", "base path on an overlay file system (root /): layercake's own rbind of /VB/hostsrc was reported as wrong source (fixed by 23c682d)",
+                t, host([[8, 1, "0:40", "/", VB, "overlay", "overlay", "/lo", "/up", "/wk"]]), [step("mount", "b0"), step("probe")]))
+t = Tree(); layer(t, "b0", "", ["import proc /proc /proc", "import rbind /VB/hostsrc/sub /mnt/host"])
+sus.append(case("corpus-bind-source-behind-bind", "import source behind a bind mount (root /other/dir of another device mounted on /VB/hostsrc) (fixed by 23c682d)",
+                t, host([[8, 1, "8:3", "/other/dir", VB + "/hostsrc", "ext4", "/dev/sdc1", "", "", ""]]), [step("mount", "b0"), step("probe")]))
+t = Tree(); layer(t, "b0", "", ["import tmpfs /VB/hostsrc /tmp"])
+sus.append(case("corpus-foreign-fstype-same-source", "ramfs made from the configured source string on a tmpfs import's mountpoint: counted as mounted (finding nonbind-import-fstype-not-compared)",
+                t, host([[20, 1, "0:61", "/", bp("b0") + "/tmp", "ramfs", "/VB/hostsrc", "", "", ""]]), [step("probe")]))
+t = Tree(); layer(t, "b0", "", ["import tmpfs /VB/hostsrc /tmp"])
+sus.append(case("corpus-same-fstype-other-source", "tmpfs with source 'none' on a tmpfs import's mountpoint: wrong source, error",
+                t, host([[20, 1, "0:61", "/", bp("b0") + "/tmp", "tmpfs", "none", "", "", ""]]), [step("probe")]))
+t = Tree(); layer(t, "b0", "", ["import tmpfs /VB/hostsrc /tmp"])
+sus.append(case("corpus-own-tmpfs", "control: layercake's own tmpfs mount", t, host(), [step("mount", "b0"), step("probe")]))
+t = Tree(); layer(t, "b0", "", IMP); layer(t, "d1", "b0", IMP); t.dir(bp("d1") + "/mnt/x")
+sus.append(case("corpus-foreign-below-build-no-overlay", "derived layer without overlay, a foreign mount below its build root that is no import mountpoint: error (fix f9eff6a: any mount at or below)",
+                t, host([m_proc(20, "b0"), m_dev(21, "b0"), [30, 1, "0:41", "/", bp("d1") + "/mnt/x", "tmpfs", "tmpfs", "", "", ""]]),
+                [step("probe"), step("mount", "d1"), step("probe")]))
+with open(os.path.join(out_dir, "suspects.jsonl"), "w") as fh:
+    for c in sus:
+        fh.write(json.dumps(c, sort_keys=True) + "\n")
+print("wrote", len(sus), "suspect cases")
